@@ -806,7 +806,9 @@ pub fn run(ctx: &Ctx) -> Outcome {
         let max_dev = if case.via_shutdown && base.bytes.len() <= 17 { 3 } else { max_dev };
         let share = ((budget * 0.45 - ctx.elapsed()).max(1.0)) / (wcases.len() - i) as f64;
         let h = WriteHarness { case, index: i, baseline: base.bytes.clone() };
-        let rep = explore(&h, &ExploreCfg::new(max_dev, std::time::Instant::now() + std::time::Duration::from_secs_f64(share), false));
+        // quick: work-bounded (a level of at most 400k codec runs is started), machine-independent
+        let cfg = if quick { ExploreCfg::work_bounded(max_dev, std::time::Instant::now() + std::time::Duration::from_secs_f64(ctx.remaining().max(1.0)), false, 400_000) } else { ExploreCfg::new(max_dev, std::time::Instant::now() + std::time::Duration::from_secs_f64(share), false) };
+        let rep = explore(&h, &cfg);
         let complete = rep.partial_level.is_none() && (rep.completed_level == Some(max_dev));
         if !complete {
             all_complete = false;
@@ -843,7 +845,8 @@ pub fn run(ctx: &Ctx) -> Outcome {
         let max_dev = if quick { 3 } else { 4 };
         let share = ((budget * 0.75 - ctx.elapsed()).max(1.0)) / (rcases.len() - i) as f64;
         let h = ReadHarness { case, index: i, baseline: base.got.clone() };
-        let rep = explore(&h, &ExploreCfg::new(max_dev, std::time::Instant::now() + std::time::Duration::from_secs_f64(share), false));
+        let cfg = if quick { ExploreCfg::work_bounded(max_dev, std::time::Instant::now() + std::time::Duration::from_secs_f64(ctx.remaining().max(1.0)), false, 400_000) } else { ExploreCfg::new(max_dev, std::time::Instant::now() + std::time::Duration::from_secs_f64(share), false) };
+        let rep = explore(&h, &cfg);
         if rep.partial_level.is_some() || rep.completed_level != Some(max_dev) {
             all_complete = false;
         }
